@@ -11,9 +11,12 @@ LEVEL_TEXT = ("Theorems in Lean about the executable model of Recipe.scale / Sca
               "those of the input, the frame (structure, text, units, proportions) is unchanged, scaling by 1 is the identity and scaling composes "
               "for exact numbers, validity is preserved - for all recipes and factors; model tied to the code by exact equality of scaled recipes.")
 LEVEL_NOTE = ("Trusted: Lean kernel; the hand-written model as far as correspondence exercises it; Python arithmetic = exact rationals / correctly "
-              "rounded doubles (validated bit-exactly per case). Float composition is the bounded statement (3 ulp), compile/scale commutation and "
-              "Markdown prose are checked by the oracle on generated documents, not yet theorems.")
-LEAN_MODULES = ["RecipeGrid.Props.C03"]
+              "rounded doubles (validated bit-exactly per case). Float composition is the bounded theorem scale_twice_close_tree (two scalings vs one: within 6 units roundoff, "
+              "from toDouble_err: |toDouble x - x| <= |x| / 2^53 for every rational x; binary64 overflow/subnormals are outside the model); "
+              "compile/scale commutation is a theorem for exact factors and exact literals under the hypothesis that no inlining "
+              "test sits on the edge of its float tolerance (compile_scale_commute; elab_scale_commute unconditionally; the unconditional statement is "
+              "refuted in the kernel, compile_scale_commute_Full_false - a recorded finding); Markdown prose and whole documents are checked by the oracle.")
+LEAN_MODULES = ["RecipeGrid.Props.C03", "RecipeGrid.Props.C03b", "RecipeGrid.Props.C03c"]
 SOURCES = ["recipe_grid/recipe.py", "recipe_grid/scaled_value_string.py", "recipe_grid/markdown.py", "recipe_grid/static_site/standalone_page.py"]
 RULE = ("multi-block recipes built with the real constructors (references to earlier sub recipes incl. multi-output, nested sub recipes, every amount form, "
         "numbers int/Fraction/float in names) and compiled descriptions, times factors from positive ints, Fractions and floats; non-trivial = at least "
@@ -184,8 +187,56 @@ def check_commute(d, k):
     except Exception as e:  # noqa
         return [("C03:premultiplied-source-does-not-compile", repr(e)[:200])]
     if tables_html([r.scale(k) for r in a]) != tables_html(b):
-        return [("C03:scale-after-compile-differs-from-compile-of-premultiplied-source", "factor %r" % (k,))]
+        sig = "C03:scale-after-compile-differs-from-compile-of-premultiplied-source"
+        if at_tolerance_edge(d):
+            # the inlining test (Quantity.has_equal_value_to: math.isclose on binary64, rel_tol 1e-9) is decided by rounding
+            sig += ":inline-test-at-edge-of-1e-9-tolerance"
+        return [(sig, "factor %r: %r" % (k, gen_desc.print_desc(d, sp)[0]))]
     return []
+
+
+def quantity_values(d):
+    def go(e):
+        if e[0] == "step":
+            for x in e[2]:
+                yield from go(x)
+        elif e[1] is not None and e[1][0] in ("qty", "xqty"):
+            yield Fraction(e[1][1])
+    for block in d:
+        for outs, named, e in block:
+            yield from go(e)
+
+
+def at_tolerance_edge(d):
+    """some two written quantities differ, in exact arithmetic, by a relative amount within 1e-15 of the 1e-9 tolerance"""
+    vs = sorted(set(quantity_values(d)))
+    tol = Fraction(1, 10 ** 9)
+    for i, x in enumerate(vs):
+        for y in vs[i + 1:]:
+            m = max(abs(x), abs(y))
+            if m and abs(abs(x - y) / m - tol) <= Fraction(1, 10 ** 15):
+                return True
+    return False
+
+
+# recorded finding (found by the Lean proof attempt of compile_scale_commute: the unconditional statement is false): the amount of the single
+# reference differs from the definition's by 1e-9 * (1 - 1e-7 or so); unscaled the binary64 test says "equal" (inlined), scaled by 3/2 it says "different"
+EDGE_DESC = [[(None, False, ("leaf", ("qty", Fraction(180143984914675851, 180143985094819840), None, "", ""), ("flour",))),
+              (None, False, ("step", ("fry",), [("leaf", ("qty", 1, None, "", ""), ("flour",))]))]]
+
+
+def _l(name, amt=None):
+    return ("leaf", amt, (name,))
+
+
+# whether a definition is folded into its single use must not depend on the size of the numbers: amounts that agree only when rounded for display
+COMMUTE_CORPUS = [
+    [[(None, False, _l("butter", ("qty", 1, "lb", " ", ""))), (None, False, ("step", ("cream",), [_l("butter", ("qty", 454, "g", " ", "")), _l("sugar")]))]],
+    [[(None, False, _l("milk", ("qty", 1, "pint", " ", ""))), (None, False, ("step", ("warm",), [_l("milk", ("qty", 568, "ml", " ", " of the"))]))]],
+    [[(None, False, _l("flour", ("qty", 1, "kg", "", ""))), (None, False, ("step", ("sift",), [_l("flour", ("qty", 1000, "g", "", ""))]))]],
+    [[(None, False, _l("eggs", ("qty", 3, None, "", ""))), (None, False, ("step", ("beat",), [_l("eggs", ("qty", 3, None, "", ""))])),
+      (None, False, ("step", ("boil",), [_l("eggs", ("qty", 3, None, "", ""))]))]],
+]
 
 
 MD_DOC = """# Pie for %(n)d
@@ -248,6 +299,32 @@ def check_markdown(rng):
         page = generate_standalone_page(f, scale=k, embed_local_links=False)
         if svalues(page, True) != svalues(mr.render(k), True):
             out.append(("C03:standalone-page-scale-wrong", "scale %r" % (k,)))
+        # the command line: --scale takes the factor as text ('3', '3.5', '1/2', '11/2', '9 3/4'), --servings a count
+        import contextlib
+        import io
+        import sys
+        from recipe_grid.scripts import recipe_grid as cli
+        kk = rng.choice([Fraction(11, 2), Fraction(10, 3), Fraction(1, 2), Fraction(39, 4), Fraction(25, 12), 3, Fraction(7, 2), Fraction(12, 5)])
+        spellings = [fmt(kk)] if not isinstance(kk, Fraction) else ["%d/%d" % (kk.numerator, kk.denominator), "%d / %d" % (kk.numerator, kk.denominator)]
+        if isinstance(kk, Fraction) and kk > 1:
+            spellings.append("%d %d/%d" % (kk.numerator // kk.denominator, kk.numerator % kk.denominator, kk.denominator))
+        for text in spellings:
+            o = scratch / "out.html"
+            old = sys.argv
+            sys.argv = ["recipe-grid", str(f), str(o), "--scale", text, "-E"]
+            try:
+                with contextlib.redirect_stdout(io.StringIO()), contextlib.redirect_stderr(io.StringIO()):
+                    try:
+                        cli.main()
+                    except SystemExit as e:
+                        if e.code not in (0, None):
+                            out.append(("C03:command-line-scale-rejected", "--scale %r: exit %r" % (text, e.code)))
+                            continue
+            finally:
+                sys.argv = old
+            page = o.read_text()
+            if svalues(page, True) + svalues(page, False) != svalues(mr.render(kk), True) + svalues(mr.render(kk), False):
+                out.append(("C03:command-line-scale-wrong", "--scale %r: shows %r, expected %r" % (text, svalues(page, True)[:4], svalues(mr.render(kk), True)[:4])))
     finally:
         shutil.rmtree(scratch, ignore_errors=True)
     return out
@@ -282,11 +359,11 @@ def oracle(run):
         for sig, detail in check_case(rs, k, k2):
             run.violate(sig, detail, {"blocks": rsexp.blocks(rs), "k": repr(k), "k2": repr(k2)})
     from .. import gen_desc
-    for _ in range(run.budget(150, 4000)):
-        d = gen_desc.Gen(run.rng).desc()
+    fixed = [(EDGE_DESC, Fraction(3, 2))] + [(d, k) for d in COMMUTE_CORPUS for k in (2, 3, Fraction(1, 2))]
+    for i in range(run.budget(150, 4000) + len(fixed)):
+        d, k = fixed[i] if i < len(fixed) else (gen_desc.Gen(run.rng).desc(), run.rng.choice([2, 3, 10, Fraction(1, 2), Fraction(3, 2), Fraction(7, 3)]))
         if not desc_is_exact(d):
             continue
-        k = run.rng.choice([2, 3, 10, Fraction(1, 2), Fraction(3, 2), Fraction(7, 3)])
         run.case(("commute", repr(d), repr(k)), True, kind="compile-scale-commute")
         for sig, detail in check_commute(d, k):
             run.violate(sig, detail, {"desc": repr(d), "k": repr(k)})
